@@ -13,7 +13,7 @@ LEVEL = "other"
 CLAIM = {
     "text": ("(R1) Exactness over the reals by induction, as machine-checked polynomial identities: the straight-line bodies of RunningStatistics.update and RunningCovariance.update are translated to rational functions of "
              "(n, S1, S2, x) resp. (n, Sx, Sy, Sxy, x, y) under the invariant count = n, mean = S1/n, M2 = S2 - S1^2/n (C = Sxy - Sx*Sy/n) and must normalise to the invariant at n + 1; base case = initial state; var, covar, sample_covar "
-             "normalise to their textbook forms; std / err are the stated roots; update_from_it and the matrix class call update exactly once per element / pair; the matrix fill is symmetric. Because the invariant is a function of the multiset of inputs this gives "
+             "normalise to their textbook forms; std / err are the stated roots; update_from_it calls update exactly once per element / pair in order (or, when written as a loop over local copies of the accumulators, that loop is verified by the same identities: locals start as the accumulators, one iteration maps the invariant at n to n + 1, every accumulator receives its own value back); the matrix class calls update once per pair; the matrix fill is symmetric. Because the invariant is a function of the multiset of inputs this gives "
              "'any chunking, any order' over the reals. (R2) Conditioning: a translation-type system (LOC / INV / CNT) shows the data enter the second-moment accumulators only through differences from a running location -- a sum-of-raw-squares formulation is algebraically exact, "
              "passes R1 and the tests, and is rejected here. (R3) Stopping rule: every exit of the sampling loop is the convergence break (guarded by the sample floor and converged(rtol, tol_scale*rtol) with the arguments in the callee's order), the limit break in the "
              "linear normal form i + 1 >= max_samples, or the keyboard interrupt; each drawn value reaches rs.update exactly once before any exit test. (R4) instances share no mutable state. Not decided: floating-point error bounds as such."),
